@@ -111,11 +111,13 @@ def explore(
     bound: Optional[int] = None,
     max_executions: Optional[int] = None,
     stats: Optional[ExploreStats] = None,
+    start_prefix: Sequence[int] = (),
 ) -> Iterator[Execution]:
-    """Depth-first enumeration of all choice vectors of ``body``."""
+    """Depth-first enumeration of all choice vectors of ``body`` that extend
+    ``start_prefix`` (the subtree under that prefix)."""
     st = stats if stats is not None else ExploreStats()
     st.bound = bound
-    stack: List[Tuple[List[int], List[str]]] = [([], [])]
+    stack: List[Tuple[List[int], List[str]]] = [(list(start_prefix), [])]
     while stack:
         prefix, labels = stack.pop()
         if max_executions is not None and st.executions >= max_executions:
@@ -175,3 +177,35 @@ class StateGraph:
     def merge(self, other: "StateGraph") -> None:
         self.states |= other.states
         self.edges |= other.edges
+
+
+class _Cut(Exception):
+    pass
+
+
+def split_prefixes(body: Callable[[Chooser], Any], depth: int) -> List[List[int]]:
+    """All choice prefixes of length ``depth`` (shorter where the body ends earlier):
+    the frontier that partitions the tree into independent subtrees for workers."""
+
+    class _CutChooser(Chooser):
+        def pick(self, label, options):  # type: ignore[override]
+            if len(self.points) >= depth:
+                raise _Cut()
+            return super().pick(label, options)
+
+    out: List[List[int]] = []
+    stack: List[List[int]] = [[]]
+    while stack:
+        prefix = stack.pop()
+        ch = _CutChooser(prefix)
+        try:
+            body(ch)
+        except _Cut:
+            pass
+        out.append(ch.vector)
+        new = []
+        for i in range(len(prefix), len(ch.points)):
+            for alt in range(1, ch.points[i].n):
+                new.append(ch.vector[:i] + [alt])
+        stack.extend(reversed(new))
+    return out
